@@ -123,7 +123,12 @@ pub fn determined(table: &[(usize, u64)], k: usize) -> u64 {
 fn check_pass(out: &mut CaseOut, cov: &mut Cov, ctx: &CaseCtx, vs: &ValidStream, cuts: &[usize], chunking: &str) -> bool {
     let sink = SharedSink::new();
     let obs = sut::new_obs(u64::MAX);
-    let d = DriveOpts { skip_finish: true, ..Default::default() };
+    // flush() between the pieces (every third pass) must change nothing about what the sink holds
+    let flush_between = (cuts.len() + vs.file.len()) % 3 == 0;
+    if flush_between {
+        cov.name("passes_with_flush_between_pieces", 1);
+    }
+    let d = DriveOpts { skip_finish: true, flush_between, ..Default::default() };
     let run = streamdrv::drive(&vs.file, &vs.options, cuts, &d, &sink, &obs);
     out.evals += 1;
     let data = || J::obj().set("input_hex", J::s(crate::util::hex_trunc(&vs.file, 4096))).set("stream", J::s(vs.desc.as_str())).set("chunking", J::s(chunking)).set("cuts", J::s(format!("{:?}", &cuts[..cuts.len().min(40)])));
@@ -183,7 +188,7 @@ fn check_pass(out: &mut CaseOut, cov: &mut Cov, ctx: &CaseCtx, vs: &ValidStream,
 fn check_prefix_finish(out: &mut CaseOut, cov: &mut Cov, vs: &ValidStream, n: usize, cuts: &[usize], chunking: &str) -> bool {
     let sink = SharedSink::new();
     let obs = sut::new_obs(u64::MAX);
-    let run = streamdrv::drive(&vs.file[..n], &vs.options, cuts, &DriveOpts::default(), &sink, &obs);
+    let run = streamdrv::drive(&vs.file[..n], &vs.options, cuts, &DriveOpts { flush_between: (n + cuts.len()) % 3 == 0, ..Default::default() }, &sink, &obs);
     out.evals += 1;
     cov.inc("prefix_finish_chunking", match chunking { "one write" => 0, "1-byte writes" => 1, "random" => 2, _ => 3 });
     let data = || J::obj().set("input_hex", J::s(crate::util::hex_trunc(&vs.file[..n], 4096))).set("stream", J::s(vs.desc.as_str())).set("prefix_len", J::i(n)).set("chunking", J::s(chunking));
